@@ -18,7 +18,7 @@ import (
 )
 
 func workloadNames() []string {
-	return []string{"locrib-clients", "adjribin-pipeline", "adjribout-pipeline", "session-churn", "update-sender", "dispose-late-register", "server-live-readers", "server-session-events"}
+	return []string{"locrib-clients", "adjribin-pipeline", "adjribout-pipeline", "session-churn", "update-sender", "dispose-late-register", "server-live-readers", "server-session-events", "server-collisions"}
 }
 
 var (
@@ -158,6 +158,8 @@ func build(j Job, round int) *wl {
 		buildServerLive(w, j, round)
 	case "server-session-events":
 		buildServerEvents(w, j, round)
+	case "server-collisions":
+		buildServerCollisions(w, j, round)
 	default:
 		panic("unknown workload " + j.Workload)
 	}
@@ -340,4 +342,37 @@ func buildServerEvents(w *wl, j Job, round int) {
 		}})
 	}
 	w.workers = append(w.workers, serverReaders(w, srv, peers, 60)...)
+}
+
+// several connections of one peer arrive at the same time: every OPEN makes its FSM look at the peer's other FSMs
+// (collision detection) while the incoming connection worker is still setting up further ones.
+func buildServerCollisions(w *wl, j Job, round int) {
+	rg, p := w.rig, w.prog
+	srv := speaker.NewServer(speaker.ServerConfig{})
+	pr, err := srv.AddPeer(speaker.PeerConfig{LocalAS: 65000, PeerAS: 65000, IPv4: &speaker.Family{}})
+	if err != nil {
+		panic(err)
+	}
+	for g := 0; g < 4; g++ {
+		w.workers = append(w.workers, conc.Worker{Name: "incoming-connection", Fn: func(rng *rand.Rand) {
+			for k := 0; k < 8; k++ {
+				var s *speaker.Session
+				var err error
+				rg.Op(p, "peer connects", func() { s, err = pr.Connect() })
+				if err != nil {
+					w.note("connect_failed", 1)
+					continue
+				}
+				w.note("incoming_connections", 1)
+				rg.Op(p, "peer sends OPEN", func() { s.SendOpen(pr.DefaultOpen()) })
+				time.Sleep(time.Duration(rng.IntN(800)) * time.Microsecond)
+				if rng.IntN(2) == 0 {
+					rg.Op(p, "session.SendKeepalive", func() { s.SendKeepalive() })
+				}
+				rg.Op(p, "peer closes the connection", func() { s.Conn.PeerClose() })
+			}
+		}})
+	}
+	w.workers = append(w.workers, serverReaders(w, srv, []*speaker.Peer{pr}, 30)...)
+	w.after = func() { srv.B.DisposePeer(srv.VRF, pr.Addr) }
 }
